@@ -201,6 +201,15 @@ func moqPayload(s *Src) []byte {
 	}
 }
 
+// MoQPath: publishers go to pub0..3 (path "live" has an always-available stream that only accepts matching tracks),
+// readers mostly to "live".
+func (s *Src) MoQPath(flow string) string {
+	if flow == "publish" && !s.Odd(8) {
+		return fmt.Sprintf("pub%d", s.Intn(4))
+	}
+	return s.PathName()
+}
+
 // GenMoQ draws a MoQ client script. nativeQUIC: the PATH setup option carries the path (native QUIC) instead of the URL.
 func GenMoQ(s *Src, nativeQUIC bool) MoQScript {
 	sc := MoQScript{Version: MoQVersions[s.Intn(len(MoQVersions))]}
@@ -209,10 +218,15 @@ func GenMoQ(s *Src, nativeQUIC bool) MoQScript {
 		sc.Streams = append(sc.Streams, MoQStream{Bidi: bidi, D: d, Note: note})
 	}
 
+	sc.Flow = s.Pick("subscribe", "subscribe", "subscribe", "publish", "publish", "publish", "publish", "mixed", "junk")
+	if s.Level == 0 && (sc.Flow == "junk" || sc.Flow == "mixed") {
+		sc.Flow = "publish"
+	}
+
 	// ---- setup
 	setup := controlmessage.Setup{}
 	if nativeQUIC {
-		p := "/" + s.PathName()
+		p := "/" + s.MoQPath(sc.Flow)
 		switch s.OddCase(8, 3) {
 		case 0:
 			p = s.PathName() // no leading slash
@@ -257,10 +271,6 @@ func GenMoQ(s *Src, nativeQUIC bool) MoQScript {
 	}
 
 	// ---- flow
-	sc.Flow = s.Pick("subscribe", "subscribe", "subscribe", "publish", "publish", "publish", "publish", "mixed", "junk")
-	if s.Level == 0 && (sc.Flow == "junk" || sc.Flow == "mixed") {
-		sc.Flow = "publish"
-	}
 	subscribeCatalog := func() {
 		m := controlmessage.Subscribe{
 			RequestID:  s.SmallOrEvilUint(4, 10),
